@@ -359,3 +359,40 @@ def known_findings():
                 if m:
                     out.append({"property": m.group(1), "key": m.group(2), "what": m.group(3)})
     return out
+
+
+# field names a user may well choose and that a macro could mishandle: prefixes of the generated accessor names, leading
+# underscores, names of identifiers the generated code uses itself, raw identifiers, upper case.  No name in the pool is
+# "with_"/"set_" + another name of the pool, or the name of a generated inherent item (they would clash in any implementation).
+NAME_POOL = ["set_point", "with_gain", "_reserved", "f", "fmt", "value", "index", "field_value", "temp", "raw", "result",
+             "self_", "r#type", "other", "s", "EN", "TXIE", "x_", "__pad", "builder_", "zero", "mask", "bits",
+             "effective_index", "extracted_bits", "set_", "with_", "r#fn", "new_", "a"]
+
+
+def vary_names(decls, every=3, upper=True, raw=True):
+    """rename the fields of every `every`-th declaration (deterministic in the declaration's position): first the names of
+    the generated code's own locals, each on a field of the layout kind whose accessor bodies declare that local, then the pool"""
+    pool = [n for n in NAME_POOL if (upper or n.lower() == n) and (raw or not n.startswith("r#"))]
+    for k, d in enumerate(decls):
+        if k % every != 0 or "gram" in d:
+            continue
+        used = set()
+        rot = k // every
+        for j, f in enumerate(d["fields"]):
+            hazards = []
+            if f["array"] and not f["list"]:
+                hazards = ["effective_index", "index"]
+            elif f["array"] and f["list"]:
+                hazards = (["MASK"] if upper else []) + ["temp", "index"]
+            elif f["list"]:
+                hazards = (["CLEAR_MASK"] if upper else []) + ["temp"]
+            else:
+                hazards = ["field_value", "extracted_bits"] if (rot + j) % 2 == 0 else []
+            nm = next((h for h in hazards if h not in used), None)
+            if nm is None:
+                nm = next((pool[(rot + j + t) % len(pool)] for t in range(len(pool)) if pool[(rot + j + t) % len(pool)] not in used), None)
+            if nm is None:
+                continue
+            used.add(nm)
+            f["name"] = nm
+    return decls
